@@ -100,6 +100,8 @@ pub enum Rep {
     Cancelled { t: u8 },
     Expired,
     OpenFailed,
+    /// (wild mode) open report stating quantity QTY + 2 instead of the requested QTY
+    OpenAmended { t: u8, filled: u8 },
 }
 
 #[derive(Debug, Clone, PartialEq, Eq, Serialize, Deserialize)]
@@ -166,6 +168,9 @@ pub enum In {
     CancelSent,
     RepOpenInFlight,
     RepOpen(O),
+    /// an open report that states another order quantity than the request did (QTY + 2: amended
+    /// / rounded by the venue); "nothing left to fill" is relative to the quantity the report states
+    RepOpenAmended(O),
     RepCancelInFlight(Option<O>),
     RepInactive(Inactive),
     CancelOk(i64),
@@ -196,6 +201,17 @@ fn newer_or_eq(cur: &O, upd: &O) -> Vec<O> {
     }
 }
 
+/// `x` is a successor computed for a stand-in report with a clamped fill; put the amended report's
+/// real fill back wherever the successor holds that report.
+fn with_filled(x: M, report: &O) -> M {
+    let fix = |o: O| if o.t == report.t && o.filled == report.filled.min(QTY - 1) { O { t: o.t, filled: report.filled } } else { o };
+    match x {
+        M::Open(o) => M::Open(fix(o)),
+        M::CancelInFlight(Some(o)) => M::CancelInFlight(Some(fix(o))),
+        other => other,
+    }
+}
+
 /// Allowed successor states of the documented lifecycle.
 pub fn model_step(m: &M, input: &In) -> Vec<M> {
     match input {
@@ -210,6 +226,8 @@ pub fn model_step(m: &M, input: &In) -> Vec<M> {
             M::Untracked => vec![M::OpenInFlight],
             other => vec![other.clone()],
         },
+        In::RepOpenAmended(o) if o.filled < QTY + 2 => model_step(m, &In::RepOpen(O { t: o.t, filled: o.filled.min(QTY - 1) })).into_iter().map(|x| with_filled(x, o)).collect(),
+        In::RepOpenAmended(o) => model_step(m, &In::RepOpen(O { t: o.t, filled: QTY })),
         In::RepOpen(o) if o.filled >= QTY => {
             // an 'open' report with nothing left to fill: the order is finished
             match m.held() {
@@ -303,7 +321,7 @@ fn order_with<S>(p: &Params, cid: u8, engine_layer: bool, state: S) -> Order<Exc
 fn snapshot_order(p: &Params, cid: u8, engine_layer: bool, input: &In) -> Option<Order<ExchangeIndex, InstrumentIndex, OrderState<AssetIndex, InstrumentIndex>>> {
     let state: OrderState<AssetIndex, InstrumentIndex> = match input {
         In::RepOpenInFlight => OrderState::active(OpenInFlight),
-        In::RepOpen(o) => OrderState::active(open_of(cid, o)),
+        In::RepOpen(o) | In::RepOpenAmended(o) => OrderState::active(open_of(cid, o)),
         In::RepCancelInFlight(o) => OrderState::active(CancelInFlight { order: o.as_ref().map(|o| open_of(cid, o)) }),
         In::RepInactive(Inactive::FullyFilled) => OrderState::fully_filled(),
         In::RepInactive(Inactive::Expired) => OrderState::expired(),
@@ -311,7 +329,11 @@ fn snapshot_order(p: &Params, cid: u8, engine_layer: bool, input: &In) -> Option
         In::RepInactive(Inactive::OpenFailed) => OrderState::inactive(OrderError::Rejected(ApiError::OrderRejected("rejected".into()))),
         _ => return None,
     };
-    Some(order_with(p, cid, engine_layer, state))
+    let mut order = order_with(p, cid, engine_layer, state);
+    if matches!(input, In::RepOpenAmended(_)) {
+        order.quantity = Decimal::from(QTY + 2);
+    }
+    Some(order)
 }
 
 fn cancel_response(p: &Params, cid: u8, engine_layer: bool, input: &In) -> OrderResponseCancel<ExchangeIndex, AssetIndex, InstrumentIndex> {
@@ -359,7 +381,7 @@ fn observe(p: &Params, cid: u8, engine_layer: bool, order: Option<&Order<Exchang
     if order.key != k {
         return Err(format!("entry for {} has key {:?}, expected {:?}", cid_name(cid), order.key, k));
     }
-    if order.side != side_of(cid) || order.price != price_of(cid) || order.quantity != Decimal::from(QTY) {
+    if order.side != side_of(cid) || order.price != price_of(cid) || (order.quantity != Decimal::from(QTY) && order.quantity != Decimal::from(QTY + 2)) {
         return Err(format!("entry for {} carries another order's static data: {:?}", cid_name(cid), order));
     }
     let conv = |open: &Open| -> Result<O, String> {
@@ -527,6 +549,7 @@ fn resolve_rep(case: &OrdersCase, cid: u8, rep: &Rep) -> Option<In> {
         },
         Rep::OpenInFlight => In::RepOpenInFlight,
         Rep::Open { t, filled } => In::RepOpen(O { t: *t as i64, filled: (*filled).min(QTY) }),
+        Rep::OpenAmended { t, filled } => In::RepOpenAmended(O { t: *t as i64, filled: (*filled).min(QTY + 2) }),
         Rep::CancelInFlight { open } => In::RepCancelInFlight(open.map(|(t, f)| O { t: t as i64, filled: f.min(QTY - 1) })),
         Rep::FullyFilled => In::RepInactive(Inactive::FullyFilled),
         Rep::Cancelled { t } => In::RepInactive(Inactive::Cancelled(*t as i64)),
@@ -783,6 +806,7 @@ fn rep_wild() -> impl Strategy<Value = Rep> {
     prop_oneof![
         1 => Just(Rep::OpenInFlight),
         8 => (0u8..12, 0u8..=QTY).prop_map(|(t, filled)| Rep::Open { t, filled }),
+        2 => (0u8..12, 0u8..=QTY + 2).prop_map(|(t, filled)| Rep::OpenAmended { t, filled }),
         2 => prop::option::of((0u8..12, 0u8..QTY)).prop_map(|open| Rep::CancelInFlight { open }),
         1 => Just(Rep::FullyFilled),
         1 => (0u8..12).prop_map(|t| Rep::Cancelled { t }),
